@@ -33,6 +33,10 @@ def gen_ops(rng, sk, tmp, n):
             if sf["s"] == "leaf" and rng.random() < 0.6:
                 a = {"a": "val", "py": rng.choice(F.WRONG)}
             out.append({"op": "setitem", "key": p, "value": a, "via": rng.choice(["item", "attr"])})
+        subs = [p for p, sf in paths if sf["s"] in ("sub", "ctype")]
+        if len(subs) >= 2 and rng.random() < 0.15:
+            out.append({"op": "setitem", "key": rng.choice(subs), "value": {"a": "cfg", "schema_same": False, "tree": {}, "held_elsewhere": True},
+                        "via": rng.choice(["item", "attr"])})
         if rng.random() < 0.2:
             lo = H.gen_list_op(rng, sk, tmp)
             if lo is not None:
